@@ -1,5 +1,6 @@
 import Reduino.Lemmas.Field
 import Reduino.Fw.Inputs
+import Reduino.Fw.InputsWrap
 import Reduino.Host.Core
 /- helper lemmas for Props/C15.lean -/
 namespace Reduino.Lemmas.C15
@@ -242,6 +243,48 @@ theorem run_pulse_gap (k : Nat) (u : Ultra α) (now : Nat) (es ds : List Nat) (h
         have := (ha p hm).2 (by omega)
         omega
 
+end
+
+/-! ### the helper on the wrapping counter -/
+
+section
+variable {α : Type} [Num α] [LT α] [LE α] [DecidableLT α] [DecidableLE α]
+variable [Add α] [Sub α] [Mul α] [Div α] [Neg α]
+
+theorem ultra_measure_across_wrap_aux (W k : Nat) (u : Ultra α) (now : Nat) (es ds : List Nat) (acc : List UEv)
+    (h : Ultra.SafeW W k u now es ds) :
+    Ultra.attemptsW W k (u.onCounter W) now es ds acc =
+      { Ultra.attempts k u now es ds acc with st := (Ultra.attempts k u now es ds acc).st.onCounter W } := by
+  induction k generalizing u now es ds acc with
+  | zero => rfl
+  | succ k ih =>
+    simp only [Ultra.SafeW] at h
+    obtain ⟨⟨hle, hlt, hnz⟩, hrest⟩ := h
+    have hel : Clock.usub W ((Ultra.millis now ds).1 % W) (u.lastTrigger % W) = (Ultra.millis now ds).1 - u.lastTrigger :=
+      Clock.counter_difference W _ _ hle hlt
+    have hz : (u.lastTrigger % W ≠ 0) ↔ (u.lastTrigger ≠ 0) := by
+      rcases hnz with h0 | h0
+      · simp [h0]
+      · constructor
+        · intro _ h1; rw [h1] at h0; simp at h0
+        · intro _; exact h0
+    simp only [Ultra.attemptsW, Ultra.attempts, Ultra.onCounter, hel, hz]
+    generalize es.headD 0 = dur at hrest ⊢
+    by_cases hc : u.lastTrigger ≠ 0 ∧ (Ultra.millis now ds).1 - u.lastTrigger < Ultra.minInterval
+    · rw [if_pos hc] at hrest
+      simp only [if_pos hc]
+      by_cases hd : 0 < dur
+      · simp [hd]
+      · have hs := hrest.resolve_left hd
+        simp only [if_neg hd]
+        exact ih _ _ _ _ _ hs
+    · rw [if_neg hc] at hrest
+      simp only [if_neg hc]
+      by_cases hd : 0 < dur
+      · simp [hd]
+      · have hs := hrest.resolve_left hd
+        simp only [if_neg hd]
+        exact ih _ _ _ _ _ hs
 end
 
 end Reduino.Lemmas.C15
